@@ -19,6 +19,10 @@
  *
  * Records: key bytes (little endian, stored value 2k+2 so that odd values are
  * always absent) + tag bytes (original index) + filler derived from the tag.
+ * Every movement of element bytes must go through the caller's swap function
+ * and tmp belongs to that function: a shadow permutation follows the observed
+ * swap calls (key *.moved-without-swap), and a third of the raw-array runs use
+ * a swap function with its own scratch and tmp == NULL.
  * The library never dereferences elements itself: everything goes through the
  * comparison and swap callbacks, which validate every argument against
  * [arr, arr + count*size) U {scratch} U {probe} before touching it.
@@ -84,6 +88,7 @@ static struct {
     const unsigned char *scratch, *probe;
     uint64_t ncmp, nswap, budget;
     int kb, style;
+    uint32_t *perm;     /* shadow: perm[i] = input index of the record the observed swaps put at slot i; slot n = scratch */
     const char *op;     /* sort / search / find / reverse */
     const char *path;   /* array / vector */
     const char *state;  /* selector name or n-class */
@@ -152,23 +157,75 @@ static int cmp_rec(const void *a, const void *b, void *priv)
     return (ka > kb) - (ka < kb);
 }
 
+/* slot index of a swap argument: 0..n-1 element, n scratch, -1 outside, -2 misaligned */
+#define SH_GARBAGE 0xffffffffu
+static inline long slot(const void *p)
+{
+    const unsigned char *q = p;
+    if (q == NULL) return -1;
+    if (q >= X.arr && q < X.arr + X.bytes) {
+        size_t off = (size_t)(q - X.arr), i = off / X.size;
+        return i * X.size == off ? (long)i : -2;
+    }
+    if (q == X.scratch) return (long)X.n;
+    return -1;
+}
+static void swap_args_fail(void *a, void *b, long ia, long ib)
+{
+    vrt_fail(Kop(ia == -2 || ib == -2 ? "swap.arg-misaligned" : "swap.arg-outside"),
+             "swap #%llu called with (%+ld, %+ld) bytes relative to the array of %zu x %zu bytes",
+             (unsigned long long)X.nswap, (long)((unsigned char *)a - X.arr),
+             (long)((unsigned char *)b - X.arr), X.n, X.size);
+}
+
+/* validates, mirrors the exchange in the shadow permutation, then calls cstl_swap */
 static void swap_rec(void *a, void *b, void *t, size_t len)
 {
-    int wa, wb, wt;
+    long ia, ib, it;
     if (++X.nswap > X.budget)
         vrt_fail(Kop("swap-budget-exceeded"), "%s of n=%zu made more than %llu swaps", X.op, X.n,
                  (unsigned long long)X.budget);
     if (len != X.size) vrt_fail(Kop("swap.len"), "swap called with len %zu, element size %zu", len, X.size);
-    wa = where(a); wb = where(b); wt = where(t);
-    if (wa < 0 || wb < 0 || wa == 2 || wb == 2)
-        vrt_fail(Kop(wa == -2 || wb == -2 ? "swap.arg-misaligned" : "swap.arg-outside"),
-                 "swap #%llu called with (%+ld, %+ld) bytes relative to the array of %zu x %zu bytes",
-                 (unsigned long long)X.nswap, (long)((unsigned char *)a - X.arr),
-                 (long)((unsigned char *)b - X.arr), X.n, X.size);
-    if (wt < 0 || wt == 2)
+    ia = slot(a); ib = slot(b); it = slot(t);
+    if (ia < 0 || ib < 0) swap_args_fail(a, b, ia, ib);
+    if (it < 0)
         vrt_fail(Kop("swap.scratch-outside"), "swap scratch argument %+ld bytes relative to the array is neither "
                  "the scratch element nor an element", (long)((unsigned char *)t - X.arr));
+    /* cstl_swap: *t = *a; *a = *b; *b = *t */
+    X.perm[it] = X.perm[ia]; X.perm[ia] = X.perm[ib]; X.perm[ib] = X.perm[it];
     cstl_swap(a, b, t, len);
+}
+
+/* a caller swap with its own scratch: never looks at t (the raw-array entry points are then given
+ * tmp == NULL: "scratch space to be used by the swap function", so the library must not touch it) */
+static unsigned char privbuf[64];
+static void swap_priv(void *a, void *b, void *t, size_t len)
+{
+    long ia, ib;
+    uint32_t pt;
+    (void)t;
+    if (++X.nswap > X.budget)
+        vrt_fail(Kop("swap-budget-exceeded"), "%s of n=%zu made more than %llu swaps", X.op, X.n,
+                 (unsigned long long)X.budget);
+    if (len != X.size) vrt_fail(Kop("swap.len"), "swap called with len %zu, element size %zu", len, X.size);
+    ia = slot(a); ib = slot(b);
+    if (ia < 0 || ib < 0) swap_args_fail(a, b, ia, ib);
+    pt = X.perm[ia]; X.perm[ia] = X.perm[ib]; X.perm[ib] = pt;
+    memcpy(privbuf, a, len); memmove(a, b, len); memcpy(b, privbuf, len);
+}
+
+/* after a sort/reverse driven through one of the wrappers: every byte of every element must be where the
+ * observed swap calls put it (start = content before the call) */
+static void check_shadow(const unsigned char *before, const char *oracle)
+{
+    size_t i;
+    for (i = 0; i < X.n; i++) {
+        uint32_t from = X.perm[i];
+        if (from == SH_GARBAGE || memcmp(X.arr + i * X.size, before + (size_t)from * X.size, X.size) != 0)
+            vrt_fail(K(oracle), "n=%zu size=%zu: element %zu does not hold what the %llu observed swap calls put there "
+                     "(record formerly at index %ld): the library moved element bytes without the caller's swap function",
+                     X.n, X.size, i, (unsigned long long)X.nswap, from == SH_GARBAGE ? -1L : (long)from);
+    }
 }
 
 /* ------------------------------------------------------------------ */
@@ -180,6 +237,7 @@ struct bench {
     unsigned char *in;          /* harness copy of the input records */
     unsigned char *save;        /* snapshot (for reverse / unchanged checks) */
     unsigned char *seen;        /* n bytes */
+    uint32_t *perm;             /* n + 1 entries */
     unsigned char *block;       /* raw path: the block arr points into */
     unsigned char *arr, *scratch, *probe;
     struct cstl_vector v;
@@ -193,6 +251,7 @@ static void bench_open(struct bench *b, size_t n, int size, int path, size_t cap
     b->in = vrt_alloc(n * size);
     b->save = vrt_alloc(n * size);
     b->seen = vrt_alloc(n);
+    b->perm = vrt_alloc((n + 1) * sizeof(*b->perm));
     b->probe = vrt_alloc(size);
     if (path == P_ARRAY) {
         if (n > 0) { b->block = vrt_alloc(n * size); b->arr = b->block; }
@@ -222,7 +281,7 @@ static void bench_open(struct bench *b, size_t n, int size, int path, size_t cap
 }
 static void bench_close(struct bench *b)
 {
-    vrt_free(b->in); vrt_free(b->save); vrt_free(b->seen); vrt_free(b->probe);
+    vrt_free(b->in); vrt_free(b->save); vrt_free(b->seen); vrt_free(b->perm); vrt_free(b->probe);
     if (b->path == P_ARRAY) { vrt_free(b->block); vrt_free(b->scratch); }
     else {
         VRT_OP0("vector.clear", "");
@@ -249,7 +308,14 @@ static void set_ctx(const struct bench *b, const char *op, const char *state, co
     X.budget = 64ull * b->n * b->n + 1024;
     X.kb = keybytes(b->size);
     X.op = op; X.path = pathname[b->path]; X.state = state;
+    X.perm = b->perm;
     vrt_state(state);
+}
+static void shadow_reset(const struct bench *b)
+{
+    size_t i;
+    for (i = 0; i < b->n; i++) b->perm[i] = (uint32_t)i;
+    b->perm[b->n] = SH_GARBAGE;
 }
 static const char *nclass(size_t n) { return n == 0 ? "empty" : n == 1 ? "single" : "many"; }
 
@@ -387,6 +453,8 @@ static void run_array(struct bench *b, int selidx, const uint32_t *probes, int n
 {
     const size_t n = b->n, size = b->size, bytes = n * size;
     const int kb = keybytes(b->size);
+    /* one raw-array sort/reverse in three runs with a swap function that has its own scratch and tmp == NULL */
+    const int nulltmp = b->path == P_ARRAY && (keycode ^ (keycode >> 5) ^ (keycode >> 11) ^ tapecode ^ (uint64_t)selidx ^ n) % 3 == 0;
     size_t i;
     int p;
 
@@ -408,8 +476,14 @@ static void run_array(struct bench *b, int selidx, const uint32_t *probes, int n
 
     /* ---- sort ---- */
     set_ctx(b, "sort", selname[selidx], NULL);
+    shadow_reset(b);
     tape_pos = 0;
-    if (b->path == P_ARRAY) {
+    if (b->path == P_ARRAY && nulltmp) {
+        X.scratch = NULL;
+        VRT_OP4("array.sort", "(private swap, tmp=NULL) algo=%ld n=%ld keys=0x%lx tape=0x%lx", selval[selidx], n, keycode, tapecode);
+        cstl_raw_array_sort(b->arr, n, size, cmp_rec, &X, swap_priv, NULL, (cstl_sort_algorithm_t)selval[selidx]);
+        VRT_COUNT("sort.null-scratch-with-private-swap");
+    } else if (b->path == P_ARRAY) {
         VRT_OP4("array.sort", "algo=%ld n=%ld keys=0x%lx tape=0x%lx", selval[selidx], n, keycode, tapecode);
         cstl_raw_array_sort(b->arr, n, size, cmp_rec, &X, swap_rec, b->scratch, (cstl_sort_algorithm_t)selval[selidx]);
     } else if (selidx == S_INLINE) {
@@ -428,6 +502,12 @@ static void run_array(struct bench *b, int selidx, const uint32_t *probes, int n
     if (b->path == P_VECTOR) {
         VRT_CHECK(cstl_vector_size(&b->v) == n && cstl_vector_data(&b->v) == (void *)b->arr && cstl_vector_capacity(&b->v) == b->cap,
                   K("sort.vector-geometry-changed"), "sort changed the vector's base/size/capacity");
+    }
+    /* every element byte moved by the caller's swap function only (not observable with the inline API,
+     * which hands cstl_swap itself to the library) */
+    if (selidx != S_INLINE) {
+        check_shadow(b->in, "sort.moved-without-swap");
+        VRT_COUNT("sort.shadow-verified");
     }
     /* sorted under the comparator */
     for (i = 1; i < n; i++)
@@ -476,7 +556,13 @@ static void run_array(struct bench *b, int selidx, const uint32_t *probes, int n
     if (flags & F_REVERSE) {
         if (bytes) memcpy(b->save, b->arr, bytes);
         set_ctx(b, "reverse", nclass(n), NULL);
-        if (b->path == P_ARRAY) {
+        shadow_reset(b);
+        if (b->path == P_ARRAY && nulltmp) {
+            X.scratch = NULL;
+            VRT_OP1("array.reverse", "(private swap, tmp=NULL) n=%ld", n);
+            cstl_raw_array_reverse(b->arr, n, size, swap_priv, NULL);
+            VRT_COUNT("reverse.null-scratch-with-private-swap");
+        } else if (b->path == P_ARRAY) {
             VRT_OP1("array.reverse", "n=%ld", n);
             cstl_raw_array_reverse(b->arr, n, size, swap_rec, b->scratch);
         } else if (selidx == S_INLINE) {
@@ -485,6 +571,10 @@ static void run_array(struct bench *b, int selidx, const uint32_t *probes, int n
         } else {
             VRT_OP1("vector.reverse", "n=%ld", n);
             __cstl_vector_reverse(&b->v, swap_rec);
+        }
+        if (selidx != S_INLINE) {
+            check_shadow(b->save, "reverse.moved-without-swap");
+            VRT_COUNT("reverse.shadow-verified");
         }
         for (i = 0; i < n; i++)
             if (memcmp(b->arr + i * size, b->save + (n - 1 - i) * size, size) != 0)
@@ -902,6 +992,8 @@ static const char *const required[] = {
     "arrays.large.sorted", "arrays.large.reversed", "arrays.large.constant", "arrays.large.two-valued-random",
     "arrays.large.organ-pipe", "arrays.large.sawtooth", "arrays.large.random-many-ties",
     "tape.pivot-tapes-enumerated", "rand.draws.from-tape", "rand.draws.from-fair-prng",
+    "sort.null-scratch-with-private-swap", "reverse.null-scratch-with-private-swap", "sort.shadow-verified",
+    "reverse.shadow-verified",
     "sort.verified", "sort.count-0", "sort.count-1", "cmp.calls.sort", "swap.calls.sort",
     "search.present", "search.absent", "search.absent.below", "search.absent.between", "search.absent.above",
     "search.absent.empty-array", "find.present", "find.present.first-of-several", "find.absent", "find.on-descending",
